@@ -122,6 +122,7 @@ class Ctx:
         self.corr_lines = 0
         self.driver_ok = True
         self.drift = []  # 'file::function' whose normalised AST differs from the committed baseline
+        self.uncovered = []  # new statements of changed functions that this run never executed
         self.search_only = False
         self.boost = 1  # multiplied when the proof/correspondence broke: failing-input search budget
 
@@ -156,6 +157,7 @@ class Ctx:
     def lean_stage(self, prop_modules, gen_names=None, clean=False):
         """translator -> lake build of the property's modules (and the driver) -> axiom audit"""
         os.makedirs(RUN, exist_ok=True)
+        self._closure_files = self._import_closure(prop_modules)
         with Lock(os.path.join(RUN, "lake.lock")):
             self._extract(gen_names)
             self._build(prop_modules, clean)
@@ -170,26 +172,37 @@ class Ctx:
         )
 
     def _extract(self, gen_names):
+        """Regenerate EVERY table from /repo (about 4 s), then keep the verdict-relevant part: the Gen
+        modules in the import closure of this property's theorems and driver (plus any listed in GEN).
+        A property module's GEN list is therefore advisory; a stale or incomplete list cannot leave a
+        table this property depends on un-regenerated, and a table that only other properties use
+        cannot break this property's run."""
         cmd = [PY, os.path.join(VERIF, "tools", "extract.py")]
-        if gen_names:
-            cmd += ["--only"] + list(gen_names)
         rc, out, err = sh(cmd, timeout=900)
         try:
             with open(BASELINE) as f:
                 base = json.load(f)
         except FileNotFoundError:
             base = {}
+        needed = set(gen_names or [])
+        for rel in self._closure_files:
+            m = re.match(r"DmrVerif/Gen/(\w+)\.lean$", rel.replace(os.sep, "/"))
+            if m:
+                needed.add(m.group(1))
+        self.lean["gen_needed"] = sorted(needed)
         for line in out.splitlines():
             parts = line.split(" ", 2)
             if parts[0] == "ERROR":
-                self.lean["extract_errors"].append(line)
+                if len(parts) > 1 and parts[1] in needed:
+                    self.lean["extract_errors"].append(line)
                 continue
             if len(parts) == 3:
                 name, digest, state = parts
-                self.lean["gen"][name] = {
-                    "sha256": digest,
-                    "baseline": base.get(name) == digest,
-                }
+                if name in needed:
+                    self.lean["gen"][name] = {
+                        "sha256": digest,
+                        "baseline": base.get(name) == digest,
+                    }
         if rc not in (0, 3):
             raise Infra(f"extract.py failed rc={rc}: {err[-2000:]}")
 
@@ -405,6 +418,12 @@ def finish(ctx: Ctx, matchers=None, level="proof"):
         proof_broken.append({"what": f"theorem {t}: {why}"})
     for e in ctx.lean["extract_errors"]:
         proof_broken.append({"what": f"translator could not read the table: {e}"})
+    coverage_gaps = [
+        {"what": "correspondence does not reach changed code: new statement never executed by this run "
+                 "(the model was not compared with the code on any input that takes it)",
+         "file": u["file"], "function": u["qualname"], "line": u["line"], "source": u["src"]}
+        for u in ctx.uncovered[:40]
+    ]
 
     lines = []
     n_replay = 0
@@ -438,13 +457,13 @@ def finish(ctx: Ctx, matchers=None, level="proof"):
                     "type": "failing-input",
                     "failure": v,
                     "replay_cmd": f"{PY} harness/check.py {ctx.prop} --replay <this file>",
-                    "proof_or_correspondence_broken": proof_broken + ctx.disagreements[:5],
+                    "proof_or_correspondence_broken": proof_broken + coverage_gaps[:5] + ctx.disagreements[:5],
                 }
             )
             lines.append(f"VIOLATION property={ctx.prop} replay={path}")
-    elif proof_broken or ctx.disagreements:
+    elif proof_broken or ctx.disagreements or coverage_gaps:
         # the proof no longer covers the code and the search found no failing input
-        if proof_broken and not ctx.gen_differs() and not ctx.disagreements and not ctx.lean["failed"]:
+        if proof_broken and not ctx.gen_differs() and not ctx.disagreements and not ctx.lean["failed"] and not coverage_gaps:
             # tables equal the committed baseline: the Lean sources themselves are broken
             raise Infra("lake build failed although the generated tables equal the baseline:\n" + ctx.lean["build_log"][-3000:])
         rc = 1
@@ -454,7 +473,7 @@ def finish(ctx: Ctx, matchers=None, level="proof"):
                 "seed": ctx.seed,
                 "tier": ctx.tier,
                 "type": "no-failing-input-found",
-                "no_longer_checks": proof_broken,
+                "no_longer_checks": proof_broken + coverage_gaps,
                 "correspondence_differences": ctx.disagreements[:20],
                 "search": {"evaluations": ctx.evaluations, "histogram": ctx.hist},
             }
@@ -489,6 +508,8 @@ def finish(ctx: Ctx, matchers=None, level="proof"):
             "correspondence_differences": len(ctx.disagreements),
             "oracle_failures": len(ctx.failures),
             "oracle_failures_matching_known_findings": sum(n for _, n in known_hits.values()),
+            "source_drift": ctx.drift[:40],
+            "changed_statements_never_executed": [f"{u['file']}:{u['line']} ({u['qualname']}): {u['src']}" for u in ctx.uncovered[:40]],
             "input_distribution": dict(sorted(ctx.hist.items())),
             "notes": ctx.notes,
         },
